@@ -67,14 +67,6 @@ func (x *dargs) fl(v ...float64) []float64 {
 	return out
 }
 
-// raw registers a float slice argument that is not scaled with the embedding
-func (x *dargs) raw(v ...float64) []float64 {
-	out := append([]float64(nil), v...)
-	x.floats = append(x.floats, out)
-	x.floatsBefore = append(x.floatsBefore, cloneF(out))
-	return out
-}
-
 func marker(x *dargs) *canvas.Path {
 	m := &canvas.Path{}
 	m.MoveTo(0, 0)
@@ -216,13 +208,14 @@ var dops = []dop{
 	{"Dash", "zeros-negoffset", func(p *canvas.Path, x *dargs) { sink = p.Dash(-1*x.s, x.fl(2, 0, 3, 1)...) }},
 	{"Dash", "repeated", func(p *canvas.Path, x *dargs) { sink = p.Dash(0, x.fl(1, 1, 1, 1)...) }},
 	{"Dash", "none", func(p *canvas.Path, x *dargs) { sink = p.Dash(0) }},
-	// finite but adversarial offsets with a decimal pattern: rounding can make the reduced offset equal the period
-	{"Dash", "offset-rounding-residue", func(p *canvas.Path, x *dargs) { sink = p.Dash(0.3-(0.1+0.2), x.raw(2.1, 2.3, 1, 1.2)...) }},
-	{"Dash", "offset-minus-1e-17", func(p *canvas.Path, x *dargs) { sink = p.Dash(-1e-17, x.raw(0.7, 0.1, 0.2)...) }},
-	{"Dash", "offset-minus-1e-300", func(p *canvas.Path, x *dargs) { sink = p.Dash(-1e-300, x.raw(2.1, 2.3, 1, 1.2)...) }},
-	{"Dash", "offset-one-decimal-period", func(p *canvas.Path, x *dargs) { sink = p.Dash(6.6, x.raw(2.1, 2.3, 1, 1.2)...) }},
-	{"Dash", "offset-1e300", func(p *canvas.Path, x *dargs) { sink = p.Dash(1e300, x.raw(0.7, 0.3)...) }},
-	{"Dash", "offset-minus-1e300", func(p *canvas.Path, x *dargs) { sink = p.Dash(-1e300, x.raw(2.1, 2.3, 1, 1.2)...) }},
+	// finite but adversarial offsets with a decimal pattern (scaled with the embedding like every length, so that the
+	// number of dashes stays bounded): rounding can make the reduced offset equal the period
+	{"Dash", "offset-rounding-residue", func(p *canvas.Path, x *dargs) { sink = p.Dash(0.3-(0.1+0.2), x.fl(2.1, 2.3, 1, 1.2)...) }},
+	{"Dash", "offset-minus-1e-17", func(p *canvas.Path, x *dargs) { sink = p.Dash(-1e-17, x.fl(0.7, 0.1, 0.2)...) }},
+	{"Dash", "offset-minus-1e-300", func(p *canvas.Path, x *dargs) { sink = p.Dash(-1e-300, x.fl(2.1, 2.3, 1, 1.2)...) }},
+	{"Dash", "offset-one-decimal-period", func(p *canvas.Path, x *dargs) { sink = p.Dash(6.6*x.s, x.fl(2.1, 2.3, 1, 1.2)...) }},
+	{"Dash", "offset-1e300", func(p *canvas.Path, x *dargs) { sink = p.Dash(1e300, x.fl(0.7, 0.3)...) }},
+	{"Dash", "offset-minus-1e300", func(p *canvas.Path, x *dargs) { sink = p.Dash(-1e300, x.fl(2.1, 2.3, 1, 1.2)...) }},
 	{"Offset", "out", func(p *canvas.Path, x *dargs) { sink = p.Offset(0.25*x.s, 0.01*x.s) }},
 	{"Offset", "in", func(p *canvas.Path, x *dargs) { sink = p.Offset(-0.25*x.s, 0.01*x.s) }},
 	{"Stroke", "butt-miter", func(p *canvas.Path, x *dargs) { sink = p.Stroke(0.5*x.s, canvas.ButtCap, canvas.MiterJoin, 0.01*x.s) }},
